@@ -66,6 +66,7 @@ func ruleFunnelOnce(r *Run) {
 	nArm := 0
 	for pi := range paths {
 		path := &paths[pi]
+		r.at(path)
 		for i, ev := range path.Events {
 			if ev.Kind != EvCall || ev.Callee != hdisc {
 				continue
@@ -126,6 +127,7 @@ func ruleFunnelOnce(r *Run) {
 	// non-deferred cancel() only after the funnel
 	for pi := range paths {
 		path := &paths[pi]
+		r.at(path)
 		seenFunnel := false
 		for _, ev := range path.Events {
 			if ev.Kind == EvGuard && ev.GKind == GFor {
@@ -152,6 +154,7 @@ func ruleFunnelOnce(r *Run) {
 		nFail := 0
 		for pi := range fpaths {
 			path := &fpaths[pi]
+			r.at(path)
 			for i, ev := range path.Events {
 				if ev.Kind != EvGuard {
 					continue
@@ -216,6 +219,7 @@ func ruleFunnelOnce(r *Run) {
 	}
 	for pi := range paths {
 		path := &paths[pi]
+		r.at(path)
 		for i, ev := range path.Events {
 			if reachesDispatch(ev) {
 				nMsg++
@@ -256,6 +260,7 @@ func ruleFunnelOnce(r *Run) {
 				continue
 			}
 			for _, path := range r.Paths(lf) {
+				r.at(&path)
 				iH := idxOfCall(&path, hfn, 0)
 				if iH < 0 {
 					continue
@@ -273,6 +278,7 @@ func ruleFunnelOnce(r *Run) {
 		fld := r.P.LookupField(pkgWS, "handlerWithLogs", "closeSummaryWorker")
 		ok := true
 		for _, path := range r.Paths(cl) {
+			r.at(&path)
 			c := false
 			for _, ev := range path.Events {
 				if ev.Kind == EvCall && ev.Callee == fld {
@@ -349,6 +355,7 @@ func ruleGaugePair(r *Run) {
 			continue
 		}
 		for _, path := range r.Paths(fn) {
+			r.at(&path)
 			n := 0
 			for _, ev := range path.Events {
 				if ev.Kind == EvCall && ev.Call != nil {
@@ -440,6 +447,7 @@ func (r *Run) chanSites() []chanSite {
 	seen := map[string]bool{}
 	do := func(fn *Func) {
 		for pi, path := range r.Paths(fn) {
+			r.at(&path)
 			for _, ev := range path.Events {
 				if ev.Kind == EvEnter && ev.Lit != nil {
 					inlined[ev.Lit] = true
@@ -654,6 +662,7 @@ func rulePanicContainment(r *Run) {
 	n := 0
 	for _, fn := range r.P.All {
 		for _, path := range r.Paths(fn) {
+			r.at(&path)
 			for i, ev := range path.Events {
 				if ev.Kind != EvDefer || ev.Call == nil {
 					continue
